@@ -32,8 +32,8 @@ TECHNIQUE = "deterministic simulation: definition space vs call-for-call expecta
 
 TYPES = ("COUNTER", "GAUGE", "HISTOGRAM", "SUMMARY")
 VALUE_EXPRS = (None, None, "i", "val", "i * 2.5", "len(name)", "person.age + 1", "flag", "name", "person", "nosuch",
-               "1 / 0", "data['k']", "G_HOST", "'12'", "'1e3'", "None", "host_raise('v')", "host_raise_base('v')", "G_BADNUM")
-LABEL_EXPRS = ("name", "i", "person.name", "flag", "data['k']", "nosuch", "G_HOST", "host_raise_base('l')", "G_BADNUM")
+               "1 / 0", "data['k']", "G_HOST", "'12'", "'1e3'", "None", "host_raise('v')", "host_raise_base('v')", "G_BADNUM", "host_raise_rude()")
+LABEL_EXPRS = ("name", "i", "person.name", "flag", "data['k']", "nosuch", "G_HOST", "host_raise_base('l')", "G_BADNUM", "host_raise_rude()", "G_TAB[G_BADNUM]")
 STATICS = (["s", "blue"], ["i", 7], ["b", True], ["d", 2.5], ["s", ""])
 
 
@@ -75,7 +75,7 @@ def generate(seed, tier):
         defs.append(d)
     nproc = r.choice((0, 1, 1, 2, 3))
     n = r.randrange(2, 9)
-    return {"rows": hitcommon.gen_rows(r, n), "defs": defs, "nproc": nproc, "fire_count": r.choice(("1", "2", "-1")),
+    return {"rows": hitcommon.gen_rows(r, n), "defs": defs, "nproc": nproc, "vandal": nproc >= 2 and r.random() < 0.3, "fire_count": r.choice(("1", "2", "-1")),
             "attach_at": r.randrange(1, n) if r.random() < 0.35 else None, "via": r.choice(("service", "register")),
             "also_snapshot": r.random() < 0.3, "knobs": common.draw_knobs(r, stall_p=0.0)}
 
@@ -191,7 +191,9 @@ def execute(s, ch):
             w.deep.register_tracepoint(p.basename, hitcommon.TP_LINE, args, [], ms)
 
     nproc = s["nproc"]
-    specs = [{"name": "RecMetric%d" % i, "kinds": ["metric"]} for i in range(nproc)]
+    # "vandal": the first processor adjusts the labels it is given (renames keys, adds its own): the others' are theirs
+    specs = [{"name": "RecMetric%d" % i, "kinds": ["metric"],
+              "label_vandal": bool(s.get("vandal")) and i == 0} for i in range(nproc)]
     boot_specs = specs
     attach_at = s["attach_at"] if nproc >= 1 else None
     if attach_at is not None:
